@@ -997,6 +997,11 @@ pub fn c10(a: &Analysis<'_>, out: &mut Vec<Violation>) {
         return;
     }
     if !a.complete() {
+        // "... and the run still ends with run-Finished": a run in which user code failed and which then
+        // hangs (lost wake-up, spin) instead of finishing
+        if matches!(a.h.end, RunEnd::Deadlock | RunEnd::Livelock | RunEnd::IdleSpin | RunEnd::PollCap) && a.h.cb.iter().any(|c| c.token.is_some()) {
+            out.push(v("C10", "run-not-finished-after-failure", format!("user code failed ({} injected faults fired) and the run then ended with {:?} instead of run-Finished", a.h.cb.iter().filter(|c| c.token.is_some()).count(), a.h.end)).attr("end", format!("{:?}", a.h.end)));
+        }
         return;
     }
     // every fired token appears in exactly one Failed event of the right kind
